@@ -8,7 +8,7 @@ ROOT = os.path.dirname(os.path.dirname(os.path.abspath(__file__)))
 CLAIMED = {
  "C01": dict(
   text="TLC explores every insertion sequence of <=4 (quick) / <=5 (thorough) contents over boundary size classes x hints x entropy decisions for compressing / non-compressing packs and the deduplicating adder (ContentPack.tla, 15 invariants incl. AddrResolves, AddrInjective, CountExact, BlobLimit, TailRepresentable, and the obligation that the code's placement policy is admitted by the property-level machine). Every complete behaviour becomes a run of the real creator (all codecs, levels, source kinds, both creators); the harness logs every call with its result, the independent decoder supplies the placement, and ContentPackTrace.tla (implementation constants) accepts the recorded execution only if every step is a step of the property-level machine: addresses resolve to their own content, count exact, past-count is 'none', every tail field representable.",
-  note="Trusted: TLC, tools/jbkdec.py (independent decoder, for placement), the harness's byte comparison. Sizes above 16 MiB and the 4->5 byte width boundary only in the model (Radix 4).",
+  note="Trusted: TLC, tools/jbkdec.py (independent decoder, for placement), the harness's byte comparison. Clusters above 16 MiB (4-byte offsets) are run in both tiers; the 4->5 byte width boundary (clusters above 4 GiB) only in the model (Radix 4).",
   technique="TLA+ spec (ContentPack.tla) model-checked with TLC + spec->code replay of TLC behaviours + code->spec trace validation (ContentPackTrace.tla)",
   design="5 C01"),
  "C16": dict(
